@@ -1002,6 +1002,26 @@ func genDialer(repo string) *leanFile {
 		})
 		l.Strs("doneCalls", doneCalls, "dial(): calls made by the done closure, in order")
 	}
+	// dialNDP: every call it makes, in source order (printed source): the socket set-up the
+	// listener's validation relies on (ICMPv6 filter, hop-limit control message, all-routers group)
+	if fd := fl.fn("dialNDP"); fd != nil {
+		var calls []string
+		ast.Inspect(fd.Body, func(n ast.Node) bool {
+			if c, ok := n.(*ast.CallExpr); ok {
+				name := exprString(c.Fun)
+				if strings.HasPrefix(name, "fmt.") || strings.HasPrefix(name, "netip.") {
+					return true
+				}
+				var b strings.Builder
+				printer.Fprint(&b, fset, c)
+				calls = append(calls, strings.Join(strings.Fields(b.String()), " "))
+			}
+			return true
+		})
+		l.Strs("dialNDPCalls", calls, "dialNDP: calls in source order")
+	} else {
+		failf("dialer.go: dialNDP not found")
+	}
 	// conn.go checkInterface: the conjuncts of the test that marks an address as the interface's
 	// IPv6 link-local address (`foundLL = true`)
 	if cf := load(repo, "internal/system/conn.go"); cf != nil {
